@@ -7,6 +7,8 @@ from ..astutil import call_name, short, u
 from ..core import Report
 from ..ctx import sites
 from ..frontend import Repo
+from ..rules import cell_name
+from . import state_common as SC
 from . import typestate_common as TC
 
 OPS = [
@@ -55,6 +57,8 @@ def check(repo: Repo, rep: Report) -> None:
     rep.rule("K2-termination", "errors pass through; completion is passed through or ends in a terminal call on every path", floor=35)
     rep.rule("K3-synchronous", "no scheduler in element-wise operators", floor=18)
     rep.rule("K4-composites", "composite operators are built from their documented components", floor=4)
+    rep.rule("G1-state-before-callout", "gate state (counters / flags deciding an emission) is updated before the downstream on_next it gates", floor=4)
+    rep.rule("D1-key-iff-emitted", "distinct_until_changed: the remembered key is replaced exactly when an element is emitted", floor=1)
     for key in OPS:
         got = TC.check_operator(repo, rep, "K1-signature", key,
                                 lambda k, slot: "The element-wise skeleton (what is emitted / when the sequence terminates, per "
@@ -72,9 +76,31 @@ def check(repo: Repo, rep: Report) -> None:
         ok = all(s.replace("!", "").count("N") <= 1 for s in TC.seqs(on)) if TC.seqs(on) else True
         rep.ob("K2-termination", f, f"on_next = {on}", ok, f"{f.qual}: one input can produce more than one output element")
         TC.no_scheduler(rep, "K3-synchronous", f)
+        SC.rule_state_before_callout(rep, "G1-state-before-callout", f)
     for (rel, name), parts in COMPOSITES.items():
         f = repo.fn(rel, name)
         used = [call_name(n) for n in f.all_nodes() if isinstance(n, ast.Call)]
         missing = [p for p in parts if p not in used]
         rep.ob("K4-composites", f, f"{name} = pipeline of {parts}", not missing,
                f"{name} is no longer built from {missing}: its definition as a composition of element-wise operators changed")
+
+    # distinct_until_changed: role of the remembered key = the closure cell handed to the comparer
+    duc = repo.fn("reactivex/operators/_distinctuntilchanged.py", "distinct_until_changed_.subscribe")
+    on = duc.child("on_next")
+    rep.require(on is not None, "distinct_until_changed on_next")
+    keys = set()
+    for s_ in sites(on):
+        n_ = s_.node
+        if isinstance(n_, ast.Call) and isinstance(n_.func, ast.Name) and len(n_.args) == 2:
+            o = on.owner(n_.func.id)
+            if o is not None and o.is_func and o is not on and o is not duc:      # a factory-level callable: the comparer
+                keys |= SC.closure_cells(on, n_.args[0]) | SC.closure_cells(on, n_.args[1])
+    rep.require(len(keys) == 1, "distinct_until_changed: remembered key cell")
+    key = next(iter(keys))
+    emits = SC.downstream_next_calls(on, duc.params[0])
+    writes = [s_ for s_ in sites(on) if isinstance(s_.node, ast.Assign) and cell_name(s_.node.targets[0]) == key]
+    ok = len(emits) == 1 and bool(writes) and all(w.ctx.branch == emits[0].ctx.branch for w in writes)
+    rep.ob("D1-key-iff-emitted", on, "remembered key := key of the element, in the emitting branch only", ok,
+           "distinct_until_changed replaces the remembered key on a path that does not emit (or emits without remembering): "
+           "elements are compared with the previous *input* instead of the last *emitted* element -- with a comparer that is "
+           "not transitive (tolerance) a slowly drifting sequence is never emitted")
